@@ -21,12 +21,12 @@ use std::collections::BTreeMap;
 
 pub struct C08;
 
-fn gen(seed: u64, family: &str, tier: Tier) -> Case {
+pub fn gen_case(seed: u64, family: &str, tier: Tier) -> Case {
     let mut r = Rng::new(seed ^ fnv64("C08"));
     let gp = GraphParams { nv: (3, if tier == Tier::Quick { 10 } else { 16 }), p_disconnected: 0.1, ..Default::default() };
     let mut w = World::gen_graph(&mut r, &gp);
     gen_energy(&mut r, &mut w);
-    gen_algorithm(&mut r, &mut w, false);
+    gen_algorithm(&mut r, &mut w, false, false);
     w.traversal_plugin = Some(("json".into(), None));
     w.parallelism = r.range(1, 8) as usize;
     w.persist = true;
@@ -321,7 +321,7 @@ impl Check for C08 {
         }
     }
     fn gen(&self, seed: u64, family: &str, tier: Tier) -> Case {
-        gen(seed, family, tier)
+        gen_case(seed, family, tier)
     }
     fn run(&self, case: &Case, fatal_fd: i32) -> ChildResult {
         let obs = execute(case, ExecOpts { reference: true, trace: false, log_clock: false, explore_build: false }, Box::new(NoInstr), fatal_fd);
